@@ -156,8 +156,24 @@ func genMerge(t *rapid.T) MergeCase {
 	return c
 }
 
-// build constructs the operand through the public constructors. The list
-// handed over is a private copy (the constructors may reorder it).
+// lend returns the list in a caller-owned slice with spare capacity
+// (len%3 free slots, so len == cap occurs too) and the function with which
+// the caller later scribbles over the whole backing array.
+func lend(kvs []vk.KV) ([]attribute.KeyValue, func()) {
+	buf := make([]attribute.KeyValue, len(kvs), len(kvs)+len(kvs)%3)
+	copy(buf, vk.ToAttrs(kvs))
+	return buf, func() {
+		all := buf[:cap(buf)]
+		for i := range all {
+			all[i] = attribute.String("scribbled.by.caller", "x")
+		}
+	}
+}
+
+// build constructs the operand through the public constructors as a hostile
+// caller: the list is lent in a slice with spare capacity (the constructors
+// may reorder it) and is scribbled over as soon as the constructor has
+// returned; the resource must have copied what it keeps.
 func (r Res) build() *resource.Resource {
 	switch r.Kind {
 	case "nil":
@@ -165,9 +181,15 @@ func (r Res) build() *resource.Resource {
 	case "empty":
 		return resource.Empty()
 	case "schemaless":
-		return resource.NewSchemaless(vk.ToAttrs(r.KVs)...)
+		buf, scribble := lend(r.KVs)
+		res := resource.NewSchemaless(buf...)
+		scribble()
+		return res
 	case "attrs":
-		return resource.NewWithAttributes(r.Schema, vk.ToAttrs(r.KVs)...)
+		buf, scribble := lend(r.KVs)
+		res := resource.NewWithAttributes(r.Schema, buf...)
+		scribble()
+		return res
 	}
 	panic("harness bug: unknown resource kind " + r.Kind)
 }
@@ -666,7 +688,43 @@ func runMerge(c MergeCase) ([]vk.Violation, vk.Info) {
 	checkEqual(rep, "b vs c", b, cc, bm.attrs, cm.attrs)
 	checkEqual(rep, "a vs Merge(a,b)", a, ab, am.attrs, abm.attrs)
 
+	// --- hostile caller: two constructor lists in ONE caller-owned array ---
+	// q = append(p, more...) is prepared before the first constructor runs,
+	// the shorter list is used first, each list once (the constructors may
+	// reorder the slice they are given, preserving last-value-wins, so this is
+	// the order in which the caller's expectation is well defined). Each
+	// resource must be the model of ITS list as the caller built it.
+	arr := make([]attribute.KeyValue, 0, len(c.A.KVs)+len(c.C.KVs)+1)
+	p := append(arr, vk.ToAttrs(c.A.KVs)...)
+	q := append(p, vk.ToAttrs(c.C.KVs)...)
+	specP := Res{Kind: "attrs", Schema: c.B.schema(), KVs: c.A.KVs}
+	specQ := Res{Kind: "schemaless", KVs: append(cloneKVs(c.A.KVs), c.C.KVs...)}
+	x := resource.NewWithAttributes(specP.Schema, p...)
+	xm, _ := checkCtor(rep, "shared kv array, shorter list", specP, x)
+	y := resource.NewSchemaless(q...)
+	ym, _ := checkCtor(rep, "shared kv array, longer list prepared before the first constructor call", specQ, y)
+	for i := range arr[:cap(arr)] {
+		arr[:cap(arr)][i] = attribute.String("scribbled.by.caller", "x")
+	}
+
+	// --- retained output: nothing handed out earlier may have changed ---
+	for _, h := range []struct {
+		n string
+		r *resource.Resource
+		m rmodel
+	}{
+		{"a", a, am}, {"b", b, bm}, {"c", cc, cm},
+		{"Merge(a,b)", ab, rmodel{abm.attrs, ab.SchemaURL()}}, {"Merge(b,c)", bc, rmodel{bcmod.attrs, bc.SchemaURL()}},
+		{"Merge(Merge(a,b),c)", l, rmodel{lm.attrs, l.SchemaURL()}}, {"Merge(a,Merge(b,c))", r, rmodel{rm.attrs, r.SchemaURL()}},
+		{"shared kv array, shorter list", x, xm}, {"shared kv array, longer list", y, ym},
+	} {
+		if !sameStrings(renderSlice(h.r.Attributes()), h.m.attrs.render()) || h.r.SchemaURL() != h.m.schema {
+			rep.bad("retained_resource_changed", "%s: at the end of the case the resource reads %v / %q, it was %v / %q", h.n, renderSlice(h.r.Attributes()), h.r.SchemaURL(), h.m.attrs.render(), h.m.schema)
+		}
+	}
+
 	// --- classification ---
+	info.ClassIf(len(c.A.KVs) > 0 && len(c.C.KVs) > 0, "ctor_lists_share_caller_array")
 	dAB, sAB := overlap(am.attrs, bm.attrs)
 	dBC, _ := overlap(bm.attrs, cm.attrs)
 	dAC, _ := overlap(am.attrs, cm.attrs)
@@ -717,6 +775,7 @@ func TestMergeAlgebra(t *testing.T) {
 		Property: "C19", Check: "merge_algebra",
 		Rule: "triples of resources: nil | Empty() | NewSchemaless(kvs) | NewWithAttributes(url, kvs) with url in {\"\", s1, s2} and kv lists of 0..20 items over all value types " +
 			"(empty keys, INVALID values, duplicates, invalid UTF-8; no NaN inside float slices), b and c sometimes derived from a / b (same list, one more item, reversed); " +
+			"hostile caller: every list is lent in a slice with spare capacity and scribbled over after the constructor returned, two lists share one caller-owned array (append(p, more...) prepared up front), every resource is re-checked at the end; " +
 			"non-trivial = at least one pair of operands shares a key with different values; distinct = distinct case encodings",
 		Quick: 40000, Thorough: 500000,
 		Gen: genMerge, Run: runMerge,
